@@ -27,8 +27,11 @@ namespace
 template<typename PointType>
 void flipNormalTowardOriginCoordinate(const PointType & point, PointType & normal)
 {
-  if (normal.dot(point / point.norm()) > 0) {
-    normal *= -1;
+  // only the Cartesian part is a direction: the homogeneous coordinate of the point (1) and
+  // whatever the caller left in the homogeneous coordinate of the normal must not take part
+  constexpr int DIM = romea::core::PointTraits<PointType>::DIM;
+  if (normal.template head<DIM>().dot(point.template head<DIM>()) > 0) {
+    normal.template head<DIM>() *= -1;
   }
 }
 
